@@ -280,6 +280,10 @@ class ModAnalysis:
 
         def roots_params(node):
             """param indices i such that node's access path is rooted in something derived from i."""
+            ns = node.strip()
+            if ns.k in ("CallExpr", "ConditionalOperator") or (ns.k == "BinaryOperator" and ns.j.get("op") in ("=", ",")):
+                # value produced by a call that may return (part of) its argument, e.g. rtrim(ltrim(s))
+                return [i for i in carriers if expr_sources(ns, i)], 0
             root, d = path_depth(node)
             if root is None or root.j.get("dk") not in ("param", "local"):
                 return [], d
